@@ -88,6 +88,28 @@ pub use crate::ln::channel::verif_hooks_c01::{ChanDump, HtlcDump};
 #[cfg(feature = "std")]
 pub use crate::util::test_channel_signer::verif_hooks_commit_log as commit_log;
 
+/// Sets the holder dust limit of the channel `channel_id` (any phase) with `counterparty` (to be used
+/// together with a handshake message advertising the same value). Returns whether it was found.
+#[cfg(feature = "std")]
+pub fn set_holder_dust_limit(
+	node: &crate::ln::functional_test_utils::TestChannelManager<'_, '_>,
+	counterparty: &bitcoin::secp256k1::PublicKey, channel_id: &crate::ln::types::ChannelId,
+	dust_limit_satoshis: u64,
+) -> bool {
+	let per_peer_state = node.per_peer_state.read().unwrap();
+	let mut peer_state = match per_peer_state.get(counterparty) {
+		Some(p) => p.lock().unwrap(),
+		None => return false,
+	};
+	match peer_state.channel_by_id.get_mut(channel_id) {
+		Some(chan) => {
+			chan.verif_set_holder_dust_limit(dust_limit_satoshis);
+			true
+		},
+		None => false,
+	}
+}
+
 /// The [`ChanDump`] of the funded channel `channel_id` with `counterparty`, plus the
 /// `channel_keys_id` of its signer, if that channel exists in `node` and is funded.
 #[cfg(feature = "std")]
